@@ -119,6 +119,10 @@ def h_cycle_inside(ctx):
         FP = z3.And(z3.Or(cpre(tE, tS, P[j]), tg[j]), cpre(tE, tS, ty), g)
         return spec.subset(w, FP, P[j])
 
+    def _havoc_xjr(w_, L):
+        if L['yold'] is not None:
+            L['xjr'][:] = [[w_.pred('xh!%d' % j, w_.STATE)] for j in range(J)]
+
     def after_ai(goal, lf):
         j = _index_is(aut.win['[]<>'], goal)
         w.assume(Lq[j].least_at(lf.X, f'x_{j}'))
@@ -130,6 +134,8 @@ def h_cycle_inside(ctx):
         out = [('typing', _syntactic(w, y, yold)),
                ('Q_below_y', spec.subset(w, Q, ty))]
         if yold is not None:
+            out.append(('xjr_shape: layers for exactly the recurrence predicates of this iteration',
+                        z3.BoolVal(len(L['xjr']) == J and all(len(x) >= 1 for x in L['xjr']))))
             for j in range(J):
                 out.append((f'y_below_LFPI{j}_of_yold', z3.Implies(
                     closed_hyp(j, w.term(yold)), spec.subset(w, ty, P[j]))))
@@ -142,6 +148,7 @@ def h_cycle_inside(ctx):
                   inside=_state_pred_maker('inside!h'),
                   xjr=lambda w_, L: list(), goal=lambda w_, L: None,
                   x=lambda w_, L: None, xr=lambda w_, L: None),
+        mutated=dict(xjr=_havoc_xjr),
         inv=inv)}
     before = snapshot(aut)
     if w.symbolic:
@@ -153,6 +160,8 @@ def h_cycle_inside(ctx):
         f = gr1._cycle_inside
     y, xjr = ctx.call(f, zin, hold, aut, label='_cycle_inside')
     ty = w.term(y)
+    w.oblige('_cycle_inside.post: returns attractor layers for exactly the recurrence predicates (those of the final iteration)',
+             z3.BoolVal(len(xjr) == J and all(len(x) >= 1 for x in xjr)))
     if w.symbolic:
         for j in range(J):
             w.oblige(f'_cycle_inside.post: y <= LFPI_{j}(CPre y /\\ g)   (post-fixed point)',
@@ -177,6 +186,13 @@ def h_cycle_inside(ctx):
             return acc
         want = gm.gfp(FY)
         got = w.tt(y, st)
+        from contracts import iterates
+        if len(xjr) == J:
+            ins = gm.cpre(got) & g0
+            for j in range(J):
+                err = iterates.attractor_layers(gm, ins, gl[j], xjr[j], lambda u: w.tt(u, st))
+                if err:
+                    w.fail('_cycle_inside.post: xjr[j] are the attractor layers of goal j w.r.t. the returned y', f'j={j}: {err}')
         if got != want:
             w.fail('_cycle_inside.post: y == nu Y. /\\_j mu X. ...',
                    f'explicit-state value differs at {sorted(got ^ want)[:4]}')
@@ -330,6 +346,10 @@ def h_solve_rabin_game(ctx):
         want = gm.rabin([w.tt(h, st) for h in holds],
                         [w.tt(gl, st) for gl in goals])
         got = w.tt(z, st)
+        from contracts import iterates
+        iterates.rabin(w, gm, [w.tt(h, st) for h in holds],
+                       [w.tt(gl, st) for gl in goals], zk, yki, xkijr,
+                       lambda u: w.tt(u, st))
         if got != want:
             w.fail('solve_rabin_game.post: zk[-1] == mu Z. \\/_k nu Y. /\\_j mu X. ...',
                    f'explicit-state value differs at {sorted(got ^ want)[:4]} '
